@@ -1,0 +1,34 @@
+// +build verif
+
+package dawg
+
+//VerifNode is a read-only description of one node of a Dawg. It only exists in builds with the verif tag and is used by external verification tooling.
+type VerifNode struct {
+	ID       uint64
+	Final    bool
+	NumWords int
+	Labels   []byte
+	Children []uint64
+}
+
+//VerifNodes returns a description of every node reachable from t, each node once, the root first. It does not modify t.
+func (t *Dawg) VerifNodes() []VerifNode {
+	seen := map[*Dawg]bool{t: true}
+	queue := []*Dawg{t}
+	var nodes []VerifNode
+	for len(queue) > 0 {
+		d := queue[0]
+		queue = queue[1:]
+		vn := VerifNode{ID: d.id, Final: d.final, NumWords: d.numWords}
+		vn.Labels = append(vn.Labels, d.linkLabels...)
+		for _, c := range d.links {
+			vn.Children = append(vn.Children, c.id)
+			if !seen[c] {
+				seen[c] = true
+				queue = append(queue, c)
+			}
+		}
+		nodes = append(nodes, vn)
+	}
+	return nodes
+}
